@@ -78,6 +78,10 @@ def jobs(tier, seed):
     for k, ctx in ((MAX_ATTEMPTS, False), (3, True)):
         js.append({"label": f"transient k={k} ctx={ctx} worker-death1", "wl": wl("transient", k, ctx), "k": k,
                    "ctx": ctx, "pos": 0, "budget": {"noack": 1}, "max_states": 400000})
+    # crash after every commit of the polling / retrying deliveries: progress and next attempt commit together
+    for kind_, spec in (("poll", wl("poll", 2)), ("transient", wl("transient", 2, True)), ("poll", wl("poll", 3))):
+        js.append({"label": f"{spec[0]}{spec[1]}|crash images of the RunTask steps", "wl": spec, "e2": True, "kind_": kind_,
+                   "k": spec[1][0], "ctx": True, "pos": 0})
     if tier == "thorough":
         for k in (1, 2, 3, MAX_ATTEMPTS - 1, MAX_ATTEMPTS):
             for ctx in (True, False):
@@ -89,6 +93,59 @@ def jobs(tier, seed):
             js.append({"label": f"poll k={k} noack1", "wl": wl("poll", k), "k": k, "ctx": True, "pos": 0,
                        "budget": {"noack": 1}, "kind": "poll"})
     return js
+
+
+def run_e2(job):
+    """Saved progress and the scheduling of the next attempt commit together: at every commit image taken while a
+    RunTask delivery is handled whose task reported 'still running' / raised TransientError with progress n+1, once
+    that delivery carries its processed record (so a redelivery will be skipped) the stage's durable context holds
+    the progress; and after restart + recovery from every such image the next attempt sees it."""
+    from vlib.e2 import CrashEngine
+    from vlib.view import take_view
+    from vlib.world import unpack
+
+    w = world()
+    w.wait_retries = 20
+    workload = make_workload(job["wl"])
+    key = "_pc" if job["kind_"] == "poll" else "_tc"
+    eng = CrashEngine(w, workload)
+    final, ledger, snaps = eng.baseline()
+    viols, evals = [], 0
+    for s in snaps:
+        if not s.action.startswith("d:RunTask:A:") or s.ledger_len == 0:
+            continue
+        e = ledger[s.ledger_len - 1]
+        step = str(e.get("step") or "")
+        if not (step.startswith("running") or step.startswith("transient")) or e["stage"] != "A":
+            continue
+        n = int(step.replace("running", "").replace("transient", ""))
+        w.load(unpack(s.blob))
+        view = take_view(w)
+        inflight = [m for m in view.queue if m["type"] == "RunTask" and m["elig"] == "locked"]
+        marked = (not inflight) or all(m["processed"] for m in inflight)
+        evals += 1
+        saved = view.stages["A"]["ctx"].get(key, 0)
+        where = {"crash_after_commit": s.k, "step": s.step, "handling": s.action, "attempt": n + 1}
+        if marked and saved != n + 1:
+            viols.append({"kind": "delivery-recorded-processed-before-its-progress-was-saved", "durable": saved,
+                          "expected": n + 1, "where": where, "sig": f"progress-not-saved-with-mark:{job['kind_']}"})
+        for order in ("restart-first", "expire-first"):
+            f2, post, _ = eng.recover(s, order, ec=s.ec)
+            evals += 1
+            seen = [x["ctx"].get(key, 0) for x in post if x["stage"] == "A" and x["task"] == e["task"]]
+            # after the crash the first new attempt sees the progress of the last attempt whose delivery was recorded
+            if marked and seen and seen[0] < n + 1:
+                viols.append({"kind": "saved-progress-lost-across-crash", "next_attempt_saw": seen[0], "expected": n + 1,
+                              "where": dict(where, order=order), "sig": f"saved-progress-lost-after-crash:{job['kind_']}"})
+    out, seen_sig = [], set()
+    for v in viols:
+        v["signature"] = "e2:" + v["sig"]
+        v["trace"] = [str(v["where"])]
+        if v["signature"] not in seen_sig:
+            seen_sig.add(v["signature"])
+            out.append(v)
+    return {"states": len(snaps), "transitions": evals, "violations": out, "samples": [], "job_spec": job,
+            "crash_points": len(snaps)}
 
 
 def build(job):
@@ -105,6 +162,8 @@ def build(job):
 
 
 def run_job(job):
+    if job.get("e2"):
+        return run_e2(job)
     ex = build(job).run()
     res = result_from(ex, "e1")
     res["job_spec"] = job
@@ -116,6 +175,9 @@ def aggregate(results, tier, seed, pre):
 
 
 def replay(payload):
+    if payload["job"].get("e2"):
+        r = run_e2(payload["job"])
+        return {"violations": [v for v in r["violations"] if v["signature"] == payload["violation"].get("signature")]}
     ex = build(payload["job"])
     out, viols, st = ex.replay(payload["violation"]["trace"])
     return {"steps": out, "violations": viols, "final_outcome": st.view.outcome()}
